@@ -539,8 +539,10 @@ pub const BROKEN_LITERALS: [&str; 30] = [
     "f\"\\", "b\"\\", "\"abc\ndef\"", "f\"a{b\nc}\"", "\"\"\"x\"\"", "f\"{a.}\"", "f\"é{undefined_name}\"", "f\"{é}\"", "f\"😀{1 +}\"", "f\"{f\"{x}\"}\"",
 ];
 
-pub const NUMBERS: [&str; 16] = [
+pub const NUMBERS: [&str; 30] = [
     "99999999999999999999", "9223372036854775808", "1e999", "1e", "1e+", "1_", "1__2", "0x1F", "0b2", "1.2.3", "1.", "1..2", "1.e5", "00", "1_000_000", "1.5e-400",
+    "9223372036854775807", "9223372036854775809", "-9223372036854775808", "9_223_372_036_854_775_808", "9223372036854775808.0", "18446744073709551615", "18446744073709551616",
+    "2147483648", "340282366920938463463374607431768211456", "1e308", "1e309", "1e99999999999999999999", "0xFFFFFFFFFFFFFFFFFF", "12abc",
 ];
 
 /// Literal kinds of the directed escape leg: (class name, opening text, closing text).
@@ -669,6 +671,117 @@ pub fn backslash_splices(seed: &str) -> Vec<(&'static str, String)> {
     out
 }
 
+// ------------------------------------------------------------------------------------------------------------
+// directed numeric-literal leg
+// ------------------------------------------------------------------------------------------------------------
+
+/// decimal string + small delta (non-negative decimal strings; a result below zero is clamped to "0")
+fn dec_add(s: &str, d: i32) -> String {
+    let mut digits: Vec<i32> = s.bytes().map(|b| (b - b'0') as i32).collect();
+    let mut carry = d;
+    for x in digits.iter_mut().rev() {
+        let v = *x + carry;
+        *x = v.rem_euclid(10);
+        carry = v.div_euclid(10);
+        if carry == 0 {
+            break;
+        }
+    }
+    if carry < 0 {
+        return "0".into();
+    }
+    let mut out = String::new();
+    if carry > 0 {
+        out.push_str(&carry.to_string());
+    }
+    out.extend(digits.iter().map(|d| (b'0' + *d as u8) as char));
+    let t = out.trim_start_matches('0');
+    if t.is_empty() {
+        "0".into()
+    } else {
+        t.to_string()
+    }
+}
+
+fn group3(s: &str) -> String {
+    let mut out = String::new();
+    for (i, c) in s.chars().enumerate() {
+        if i > 0 && (s.len() - i) % 3 == 0 {
+            out.push('_');
+        }
+        out.push(c);
+    }
+    out
+}
+
+/// Numeric literal spellings: every {i,u}{8,16,32,64,128}::{MIN,MAX} magnitude +-{0,1,2} in several spellings, digit
+/// runs, radix prefixes, floats with boundary integer parts, extreme exponents, malformed shapes.
+pub fn numeric_literals() -> Vec<String> {
+    let mut v: Vec<String> = Vec::new();
+    let mut mags: Vec<String> = Vec::new();
+    for k in [8u32, 16, 32, 64, 128] {
+        let half = (1u128 << (k - 1)).to_string(); // |iK::MIN|
+        let full = if k == 128 { "340282366920938463463374607431768211456".to_string() } else { (1u128 << k).to_string() }; // uK::MAX + 1
+        for base in [half, full] {
+            for d in -3..=2 {
+                mags.push(dec_add(&base, d)); // base-1 = MAX; MAX +- {0,1,2} and MIN magnitude +- {0,1,2}
+            }
+        }
+    }
+    mags.sort();
+    mags.dedup();
+    for m in &mags {
+        for neg in ["", "-"] {
+            v.push(format!("{neg}{m}"));
+            v.push(format!("{neg}{}", group3(m)));
+            v.push(format!("{neg}0{m}"));
+            v.push(format!("{neg}000_{m}"));
+            v.push(format!("{neg}{m}.0"));
+            v.push(format!("{neg}{m}.5"));
+            v.push(format!("{neg}{m}e0"));
+            v.push(format!("{neg}{m}e1"));
+            v.push(format!("{neg}{m}_"));
+        }
+    }
+    for n in 1..=60usize {
+        for c in ["9", "1", "0"] {
+            v.push(c.repeat(n));
+        }
+    }
+    for n in [20usize, 39, 40, 60] {
+        v.push(format!("{}.{}", "9".repeat(n), "9".repeat(n)));
+        v.push(format!("0.{}1", "0".repeat(n)));
+    }
+    for x in [
+        "0x0", "0x1F", "0xff", "0xFFFFFFFF", "0x7FFFFFFFFFFFFFFF", "0x8000000000000000", "0xFFFFFFFFFFFFFFFF", "0xFFFFFFFFFFFFFFFFFF", "0x", "0xG", "0X1f", "0x_1",
+        "0o7", "0o777", "0o1777777777777777777777", "0o7777777777777777777777777777", "0o8", "0o", "0b1", "0b0", "0b2", "0b",
+        "0b1111111111111111111111111111111111111111111111111111111111111111", "0b11111111111111111111111111111111111111111111111111111111111111111111111",
+        "1e308", "1e309", "1.7976931348623157e308", "1.7976931348623159e308", "-1e309", "1e-400", "5e-324", "4e-324", "2e-324", "1e99999999999999999999", "1e-99999999999999999999",
+        "1E5", "1e+5", "1e-5", "1e05", "1e+", "1e-", "1e", "1E", ".5", "5.", "1.e3", "1.2.3", "1..2", "1...2", "1_e5", "1e_5", "1e5_", "1_.5", "1._5", "1.5_", "1__2", "1_", "_1",
+        "12abc", "1x", "1f", "1j", "1L", "1u8", "1i64", "1.0f32", "1e5f", "00", "007", "0.0", "-0", "-0.0", "0e0", "0_0", "1_000_000", "1e1e1", "1.5.e3", "1.-5", "1e--5", "0.1e-0",
+    ] {
+        v.push(x.to_string());
+    }
+    v.sort();
+    v.dedup();
+    v
+}
+
+/// Every literal of `numeric_literals` in six syntactic positions (statement expression, const initialiser, match
+/// pattern, slice bounds, parameter default, f-string interpolation).
+pub fn numeric_cases() -> Vec<(&'static str, String)> {
+    let mut out = Vec::new();
+    for l in numeric_literals() {
+        out.push(("numeric:statement", format!("def main() -> None:\n    {l}\n")));
+        out.push(("numeric:const", format!("const C = {l}\n\ndef main() -> None:\n    println(C)\n")));
+        out.push(("numeric:match-pattern", format!("def main() -> None:\n    x = 1\n    match x:\n        case {l}:\n            pass\n        case _:\n            pass\n")));
+        out.push(("numeric:slice-bound", format!("def main() -> None:\n    xs = [1, 2, 3]\n    ys = xs[{l}:{l}]\n")));
+        out.push(("numeric:default-value", format!("def f(a: int = {l}) -> int:\n    return a\n")));
+        out.push(("numeric:fstring-interpolation", format!("def main() -> None:\n    println(f\"{{{l}}}\")\n")));
+    }
+    out
+}
+
 /// Token dictionary: every keyword / operator / punctuation spelling the registries know, plus layout characters.
 pub fn dictionary() -> Vec<String> {
     let mut v: Vec<String> = Vec::new();
@@ -687,6 +800,9 @@ pub fn dictionary() -> Vec<String> {
         v.push(p.canonical.to_string());
     }
     for extra in ["\\x", "\\x4", "\\u", "\\u{", "\\0", "\\\n", "b\"\\x", "b'\\x", "f\"{", "é", "€", "😀", "\u{301}", "\"\"\"", "'''"] {
+        v.push(extra.to_string());
+    }
+    for extra in ["9223372036854775807", "9223372036854775808", "18446744073709551616", "2147483648", "1e309", "1e-400", "0x", "0b", "0o", "_"] {
         v.push(extra.to_string());
     }
     for extra in ["\n", "\n    ", "\n        ", "\n\t", " ", "x", "self", "1", "2.5", "\"s\"", "f\"{x}\"", "b\"a\"", "#c", "\"\"\"", "println", "int", "str", "List", "Option", "Some", "Ok", "Err", "Result"] {
